@@ -149,6 +149,16 @@ def orientation_counts_rule(ctx, pa, rule):
     from ..core import local_defs
     from .common import key_of
 
+    # the loop that collects the scaffold orientations looks at every node of the path: it does not stop early
+    ol_ = scaffold_orientation_list(pa)
+    if ol_ is not None:
+        from ..core import own_loop_jumps
+
+        for lp_ in walk_own(pa.node):
+            if isinstance(lp_, ast.For) and any(isinstance(c_, ast.Call) and isinstance(c_.func, ast.Attribute) and c_.func.attr in ("append", "add") and norm(c_.func.value) == ol_ for c_ in ast.walk(lp_)):
+                for j_ in own_loop_jumps(lp_.body):
+                    if isinstance(j_, ast.Break):
+                        ctx.violated(rule, pa.where(j_), "the loop over the nodes of the path stops early (`break`): the orientations of the remaining scaffold nodes are not counted, so the majority that picks the anchor end (and with it bo:i and the sort key) is taken over a prefix of the path (`>s1>s2<s5<s4<s3` is anchored as a forward path)", key_of(pa, "node-loop-break"))
     ld = local_defs(pa.node)
     recvs = {}
     for c in walk_own(pa.node):
